@@ -9,7 +9,9 @@
 (*  "hash"        a product of species counts 1..6 x dimensions x cells x  *)
 (*                masks x frame counts x widths x sizes with positions     *)
 (*                from a deterministic hash (half-integer coordinates, in  *)
-(*                and outside the box)                                     *)
+(*                and outside the box); two-frame members with an even     *)
+(*                species count are sheared between the frames, those with *)
+(*                3 | K have their species labels rotated                  *)
 (*  "trace"       configurations recorded by the harness (direction B)     *)
 (* In every state the C03 clauses are INVARIANTs; with Gen = TRUE the case *)
 (* (counts, tie counts, normalisation and shell terms) is printed.         *)
@@ -57,9 +59,15 @@ HashConfig(s) ==
       h   == IF d = 2 THEN Cells2[ci] ELSE Cells3[ci]
       n   == IF ni = 0 THEN K + 2 ELSE K + 5
       Lk(k) == h[k][k]
-  IN  [ H |-> h, ppp |-> MasksOf(d)[mi], S |-> 2, types |-> HTypes(s, n, K),
-        frames |-> [f \in 1..nf |-> [i \in 1..n |-> [k \in 1..d |-> HPos(s, f, i, k, Lk(k))]]],
-        wn |-> (IF wi = 0 THEN 1 ELSE 3), sharp |-> (IF DyadicCell(h) THEN 1 ELSE 0) ]
+      ty  == HTypes(s, n, K)
+      \* two-frame members: for even K the second frame is sheared (tilts changed at constant edge lengths),
+      \* for K divisible by 3 the species labels are rotated by one particle in the second frame
+      h2  == [k \in 1..d |-> [j \in 1..d |-> IF j < k THEN h[k][j] + (IF (k + j) % 2 = 1 THEN 3 ELSE 0 - 2) ELSE h[k][j]]]
+      base == [ H |-> h, ppp |-> MasksOf(d)[mi], S |-> 2, types |-> ty,
+                frames |-> [f \in 1..nf |-> [i \in 1..n |-> [k \in 1..d |-> HPos(s, f, i, k, Lk(k))]]],
+                wn |-> (IF wi = 0 THEN 1 ELSE 3), sharp |-> (IF DyadicCell(h) THEN 1 ELSE 0) ]
+      withH == IF nf = 2 /\ K % 2 = 0 THEN base @@ [Hs |-> <<h, h2>>] ELSE base
+  IN  IF nf = 2 /\ K % 3 = 0 THEN withH @@ [tys |-> <<ty, [i \in 1..n |-> ty[(i % n) + 1]]>>] ELSE withH
 
 \* ------------------------------------------------------------- trace (direction B)
 Tr == IF Mode = "trace" THEN ndJsonDeserialize(IOEnv.TRACE_FILE) ELSE << >>
@@ -83,7 +91,7 @@ IsConfig == Mode # "classifier"
 InvClassifier == (~IsConfig) => EveryPairInExactlyOnePartial(c.K) /\ OnlyTotalAboveFiveSpecies(c.K)
 InvPartition  == IsConfig => EveryPairInExactlyOnePartial(NSpecies(c)) /\ OnlyTotalAboveFiveSpecies(NSpecies(c))
 InvSumRule    == IsConfig => LET h == Hist(c) IN TotalIsCompositionWeightedSum(c, h) /\ CountsSymmetric(c, h)
-InvTypes      == IsConfig => Species(c) = 1..NSpecies(c)
+InvTypes      == IsConfig => Species(c) = 1..NSpecies(c) /\ PerFrameOK(c)
 
 LatKey == LET f == c.frames[1] IN
   f[2][1] + 5 * f[2][2] + 11 * f[3][1] + 17 * f[3][2] + 23 * f[1][1] + 29 * c.wn + 31 * c.ppp[1] + 37 * c.ppp[2]
